@@ -171,7 +171,7 @@ def random_gnb_offset(ctx, count):
         # var_smoothing 0 keeps these histories about the mean/variance merge alone. With the default 1e-9 the unchanged
         # tree is itself rejected at 2^30 / 2^40 (max_pooled_variance subtracts raw second moments: proposed fix
         # docs/reports/C15-fix-gnb-pooled-variance-centred.diff); C15_OFFSET_SMOOTHING=1 generates that variant.
-        vs = R(1, 1000000000) if os.environ.get("C15_OFFSET_SMOOTHING") == "1" else R(0)
+        vs = R(0) if os.environ.get("C15_OFFSET_SMOOTHING") == "0" else R(1, 1000000000)   # default smoothing since fix 1963b3d
         out.append({"kind": "gnb", "inp": {"d": d, "rows": rows, "labels": labels, "cuts": cuts, "vs": vs,
                                            "queries": queries, "offk": r.choice([20, 30, 30, 40])}})
     return out
